@@ -552,11 +552,47 @@ fn check_tape_c(tape: &[u8], gates: &Gates, stats: &mut Stats, counting: bool, s
     Ok(())
 }
 
+/// the `file:L:C` that `ironplcc check`, `ironplcc echo` (syntax errors) and `ironplcc tokenize`
+/// (lexical errors) print for the first diagnostic of a text that does not parse / tokenize is
+/// the line / column of the label start found in process (every sub-command reports positions)
+pub fn check_shown_error_position(text: &str) -> Result<bool, (String, String)> {
+    use crate::drive::*;
+    let fid = FileId::from_string("c05s.st");
+    let d = match crate::panicx::catch(|| parse_program(text, &fid, &ParseOptions::default())) {
+        Ok(Err(d)) => d,
+        _ => return Ok(false),
+    };
+    let s = d.primary.location.start;
+    if s > text.len() || !text.is_char_boundary(s) {
+        return Ok(false); // reported by (e)
+    }
+    let pos = PosIndex::new(text);
+    let (line, _, col_chars, _) = pos.pos(s);
+    let want = (line + 1, col_chars + 1);
+    let dir = Scratch::new("c05s");
+    let p = dir.write("c05s.st", text.as_bytes()).to_string_lossy().to_string();
+    let mut cmds = vec!["check", "echo"];
+    if d.code == "P0031" {
+        cmds.push("tokenize");
+    }
+    for cmd in cmds {
+        let out = run_cli(&[cmd.to_string(), p.clone()], None);
+        if out.timed_out {
+            continue;
+        }
+        let shown: Vec<(usize, usize)> = parse_cli_diags(&out.stderr).into_iter().filter(|x| x.code == d.code && x.file.is_some()).map(|x| (x.line, x.col)).collect();
+        if !shown.is_empty() && !shown.contains(&want) {
+            return Err((format!("{}-position", cmd), format!("{}: label starts at line {} column {} (1-based), `ironplcc {}` shows {:?}", d.code, want.0, want.1, cmd, shown)));
+        }
+    }
+    Ok(true)
+}
+
 /// (e) syntax errors: the message of a P0002 diagnostic quotes the text the parser stopped at
 /// ("Found text '...' that matched token ..."); the primary label must cover exactly that text.
 /// Programs are broken by white space / a comment at a joint where IEC forbids it (inside a typed
 /// literal, a duration, a date) or by token-level mutations.
-fn check_tape_e(tape: &[u8], gates: &Gates, stats: &mut Stats, counting: bool) -> Result<(), Failure> {
+fn check_tape_e(tape: &[u8], gates: &Gates, stats: &mut Stats, counting: bool, shown_budget: &std::sync::atomic::AtomicI64) -> Result<(), Failure> {
     let mut g = Gen::new(gates, Tape::new(tape));
     let lib = g.library(3);
     let mut p = Printer::new(gates, g.t.rest());
@@ -620,6 +656,10 @@ fn check_tape_e(tape: &[u8], gates: &Gates, stats: &mut Stats, counting: bool) -
         if counting {
             stats.class("e.label-equals-quoted-text");
         }
+    }
+    if counting && shown_budget.fetch_sub(1, std::sync::atomic::Ordering::Relaxed) > 0 {
+        stats.class("e.shown-positions(check+echo)");
+        check_shown_error_position(&text).map_err(|(k2, d2)| Failure::new("shown-error-position", &k2, d2, json!({"text": text})))?;
     }
     Ok(())
 }
@@ -711,11 +751,33 @@ pub fn run(ctx: &Ctx) -> i32 {
     });
     rep.add(out);
     crate::fuzzrun::tape_campaign(ctx, &mut rep, "C05", &gates);
+    let shown_budget_e = std::sync::atomic::AtomicI64::new(ctx.tier.pick(200, 3000));
     let out = run_tapes("C05e", ctx.seed, ctx.threads, cases / 3, 700, |tape, stats, counting| {
         let g = Gates::with_off(off.clone());
-        check_tape_e(tape, &g, stats, counting)
+        check_tape_e(tape, &g, stats, counting, &shown_budget_e)
     });
     rep.add(out);
+    // a fixed family: lexical errors and syntax errors at chosen positions through every sub-command
+    {
+        let mut o = crate::runner::Outcome { stats: Stats::default(), failures: vec![] };
+        let texts: Vec<String> = vec![
+            "FUNCTION_BLOCK f\nVAR\nx : INT;\nEND_VAR\nx := 1 ? 2;\nEND_FUNCTION_BLOCK\n".into(),
+            "FUNCTION_BLOCK f\nVAR\nx : INT;\nEND_VAR\n\n   x := := 1;\nEND_FUNCTION_BLOCK\n".into(),
+            "(* ü *) ~".into(),
+            "TYPE\r\n  a : (x, y);\r\n  (* é *) b : ;\r\nEND_TYPE\r\n".into(),
+            "PROGRAM p\nVAR\ns : STRING := 'äö';  t : INT := ;\nEND_VAR\nEND_PROGRAM\n".into(),
+        ];
+        for t in texts {
+            o.stats.case(true, hash_str(&t));
+            o.stats.class("e.shown-positions.fixed");
+            match check_shown_error_position(&t) {
+                Ok(true) => {}
+                Ok(false) => o.stats.class("e.shown-positions.fixed.not-judged"),
+                Err((k, d)) => o.failures.push((Failure::new("shown-error-position", &k, d, json!({"text": t})), vec![])),
+            }
+        }
+        rep.add(o);
+    }
     large_positions(&mut rep);
     rep.replay_witnesses(&ctx.findings, &|w| witness(w, &Gates::all_on()));
     rep.extra.insert("gates_off".into(), json!(off));
@@ -741,6 +803,11 @@ pub fn witness(w: &Value, gates: &Gates) -> Result<(), String> {
                 Err((k, d)) => Err(format!("{}: {}", k, d)),
             }
         }
+        "shown-error-position" => match check_shown_error_position(text) {
+            Ok(true) => Ok(()),
+            Ok(false) => Err("witness not judged (the text parses)".into()),
+            Err((k, d)) => Err(format!("{}: {}", k, d)),
+        },
         k => Err(format!("unknown witness kind {}", k)),
     }
 }
@@ -751,6 +818,7 @@ pub fn replay(ctx: &Ctx, v: &Value) -> i32 {
     let r: Result<(), String> = match v["check"].as_str().unwrap_or("") {
         "tokens-tile" => check_tiling(text).map_err(|(k, d)| format!("{}: {}", k, d)),
         "witness" => witness(&v["inputs"], &Gates::all_on()),
+        "shown-error-position" => check_shown_error_position(text).map(|_| ()).map_err(|(k, d)| format!("{}: {}", k, d)),
         _ => {
             let tape: Vec<u8> = v["tape"].as_array().map(|a| a.iter().map(|x| x.as_u64().unwrap_or(0) as u8).collect()).unwrap_or_default();
             let mut s = Stats::default();
